@@ -354,6 +354,18 @@ def Iee.encryptKeyBlobs (c : CryptoOps) (bs : List IeeBlob) (ibkek1 ibkek2 : Byt
 def IeeBlob.ctx (b : IeeBlob) : IeeCtx :=
   ⟨b.keySize.tag, b.mode.tag, b.pageOffset, zeroPad 32 b.key1, zeroPad 32 b.key2, b.start, b.end_⟩
 
+/-- `IeeNxp.export_image` / `OtfadNxp.export_image` on the flattened image tree: every (absolute address, data) blob or
+    SEGMENT is encrypted on its own, at ITS absolute address (tied to the code by the harness: the exported memory image
+    equals `encrypt_image(segment, address)` segment by segment) -/
+def Iee.exportSegments (c : CryptoOps) (bs : List IeeBlob) : List (Nat × Bytes) → PyRes (List (Nat × Bytes))
+  | [] => .ok []
+  | (a, d) :: rest =>
+    match Iee.encryptImage c bs d a with
+    | .error e => .error e
+    | .ok x => match Iee.exportSegments c bs rest with
+      | .error e => .error e
+      | .ok xs => .ok ((a, x) :: xs)
+
 /-! ## BEE — software side -/
 
 namespace BeeEngine
